@@ -8,6 +8,7 @@ def run(ctx):
     thorough = ctx.tier == "thorough"
     runs = [("combine", [[1, 2, 3, 4]], [2 if not thorough else 3], "combine/1param")]
     runs.append(("combine", [[1, 2, 3], [1, 2]], [2, 2], "combine/2params"))
+    runs.append(("combine", [], [], "combine/0params"))          # result sets of simulations without unpacked parameters
     # both association orders of a three-way combine (operands that hold observation-less results are merged again)
     runs.append(("combine3", [[1, 2, 3]], [2], "combine3/1param"))
     if thorough:
